@@ -177,14 +177,21 @@ static std::string cmp_obj(const std::string& vx, const std::string& vy)
     self += (x > x) ? "1" : "0";
     self += (x <= x) ? "1" : "0";
     self += (x >= x) ? "1" : "0";
+    // the same object after its members were changed in place through the references as_tuple() hands out
+    // (a reused scratch key, a record read into an existing object): it is then a value equal to y
+    T z = x;
+    (void)hash(z);
+    (void)z.hash();
+    z.as_tuple() = y.as_tuple();
+    bool mut_ok = hash(z) == hash(y) && z.hash() == y.hash() && (z == y) && !(z != y) && !(z < y) && !(y < z);
     return "lh=" + lx.str() + "/" + ly.str() + " hx=" + hx(h1) + " hy=" + hx(hash(y)) + " ops=" + ops +
-           " self=" + self;
+           " self=" + self + " mut=" + (mut_ok ? "1" : "0");
 }
 
 template <typename X>
 static std::string only_hash(const X& x, const X& y, Leafs& lx, Leafs& ly)
 {
-    return "lh=" + lx.str() + "/" + ly.str() + " hx=" + hx(hash(x)) + " hy=" + hx(hash(y)) + " ops=------ self=------";
+    return "lh=" + lx.str() + "/" + ly.str() + " hx=" + hx(hash(x)) + " hy=" + hx(hash(y)) + " ops=------ self=------ mut=-";
 }
 
 // std::tuple / std::pair: their own operators (not nitro code) are reported as well
@@ -200,7 +207,7 @@ static std::string std_cmp(const X& x, const X& y, Leafs& lx, Leafs& ly)
     ops += (x >= y) ? "1" : "0";
     return "lh=" + lx.str() + "/" + ly.str() + " hx=" + hx(hash(x)) + " hy=" + hx(hash(y)) + " ops=" + ops +
            " self=" + std::string((x != x) ? "1" : "0") + ((x == x) ? "1" : "0") + ((x < x) ? "1" : "0") +
-           ((x > x) ? "1" : "0") + ((x <= x) ? "1" : "0") + ((x >= x) ? "1" : "0");
+           ((x > x) ? "1" : "0") + ((x <= x) ? "1" : "0") + ((x >= x) ? "1" : "0") + " mut=-";
 }
 
 template <typename T>
@@ -224,9 +231,22 @@ static std::string do_set(const std::string& members, const std::string& probes)
     }
     if (s.size() != m.size())
         return "set-and-map-disagree";
+    // a second set filled through ONE scratch key that is overwritten member by member before each insert
+    nitro::lang::unordered_set<T> s2;
+    if (!ms.empty())
+    {
+        T scratch = ms[0];
+        for (auto& x : ms)
+        {
+            scratch.as_tuple() = x.as_tuple();
+            s2.insert(scratch);
+        }
+    }
+    if (s2.size() != s.size())
+        return "set-filled-through-a-reused-key-differs";
     std::string found, pr;
     for (auto& x : ms)
-        found += (s.count(x) == 1 && m.count(x) == 1) ? "1" : "0";
+        found += (s.count(x) == 1 && m.count(x) == 1 && s2.count(x) == 1) ? "1" : "0";
     for (auto& x : ps)
         pr += (s.count(x) == 1 && m.count(x) == 1) ? "1" : (s.count(x) == 0 && m.count(x) == 0 ? "0" : "?");
     return "size=" + std::to_string(s.size()) + " found=" + found + " probes=" + pr;
